@@ -43,8 +43,11 @@ def classify_effects(effects, root):
 
 
 class OrderWalker(Walker):
-    def __init__(self, fn, eff, cache, graph_root, problems, depth=0):
+    def __init__(self, fn, eff, cache, graph_root, problems, depth=0, closures=None):
         super().__init__(fn)
+        # what the callables this function receives as parameters do to the graph tables when
+        # called: parameter declaration id -> (written groups, read groups)
+        self.closures = dict(closures or {})
         self.eff = eff
         self.cache = cache
         self.graph_root = graph_root      # path root designating the graph impl in this function
@@ -96,16 +99,70 @@ class OrderWalker(Walker):
             from ..effects import _leaf_effects
             eff = _leaf_effects(self.an, s)
             w, r = classify_effects(eff.effects, self.graph_root)
+            if self.closures:
+                # callables received as parameters that the loop calls or hands further down
+                for c in walk(s):
+                    if c.get("k") != "call":
+                        continue
+                    for u in ([c["obj"]] if c.get("obj") is not None else []) + list(c.get("a", [])):
+                        u = strip(u)
+                        while isinstance(u, dict) and u.get("k") == "call" and u.get("bn") in ("std::move", "std::forward") \
+                                and u.get("a"):
+                            u = strip(u["a"][0])
+                        if isinstance(u, dict) and u.get("k") == "ref" and u.get("d") in self.closures:
+                            cw, cr = self.closures[u["d"]]
+                            w = set(w) | set(cw)
+                            r = set(r) | set(cr)
             if w:
                 return self.apply_groups(st, s, w, r - w, "loop at line %s" % self.fn.loc(s).split(":")[-1])
         return Walker.exec(self, s, st)
+
+    def closure_args(self, node, callee):
+        """callee parameter id -> (written, read) graph-table groups of the closure passed for it"""
+        from ..effects import _leaf_effects
+        out = {}
+        for i, a in enumerate(node.get("a", [])):
+            if i >= len(callee.params):
+                break
+            u = strip(a)
+            while isinstance(u, dict) and (u.get("k") == "construct" and len(u.get("a", [])) == 1 or
+                                           u.get("k") == "call" and u.get("bn") in ("std::move", "std::forward")
+                                           and u.get("a")):
+                u = strip(u["a"][0])
+            if not isinstance(u, dict):
+                continue
+            lams = []
+            if u.get("k") == "lambda":
+                lams = [u]
+            elif u.get("k") == "ref" and u.get("d") in self.an.lambdas:
+                lams = self.an.lambdas[u["d"]]
+            elif u.get("k") == "ref" and u.get("d") in self.closures:
+                out[callee.params[i]["d"]] = self.closures[u["d"]]      # handed further down
+                continue
+            w, r = set(), set()
+            for lam in lams:
+                e = _leaf_effects(self.an, {"k": "expr", "e": lam, "l": lam.get("l")})
+                w2, r2 = classify_effects(e.effects, self.graph_root)
+                w |= w2
+                r |= r2
+            if lams:
+                out[callee.params[i]["d"]] = (frozenset(w), frozenset(r))
+        return out
 
     def visit(self, node, st):
         k = node.get("k")
         if k == "call" and node.get("fid") is not None:
             callee = self.fn.callee(node)
+            if callee is not None and callee.is_lambda and node.get("obj") is not None:
+                o = strip(node["obj"])
+                if o.get("k") == "ref" and o.get("d") in self.closures:
+                    w, r = self.closures[o["d"]]
+                    if w or r:
+                        return self.apply_groups(st, node, set(w), set(r) - set(w), "callback %s()" % o.get("n"))
+                return st
             if callee is None or callee.is_lambda:
                 return st
+            passed = self.closure_args(node, callee)
             # which root of the callee designates the graph impl?
             obj_paths = self.an.visit(node["obj"]) if node.get("obj") is not None else set()
             croot = None
@@ -119,9 +176,14 @@ class OrderWalker(Walker):
                 return st
             if callee.cls == self.fn.cls and self.depth < 4:
                 # same implementation class: analyse the callee's own typestate transformation
-                est, pres = transformer(callee, self.eff, self.cache, croot, self.problems, self.depth + 1)
+                est, pres = transformer(callee, self.eff, self.cache, croot, self.problems, self.depth + 1,
+                                        closures=passed)
                 toks = (set(self.tok(st)) & pres) | est
                 return self.set_tok(st, toks)
+            # another class: its summary does not contain what the callables passed to it do
+            for d, (w, r) in sorted(passed.items()):
+                if w or r:
+                    st = self.apply_groups(st, node, set(w), set(r) - set(w), "callback passed to %s()" % callee.name)
             s = self.eff.summary(callee)
             w, r = classify_effects(s.effects, croot)
             return self.apply_groups(st, node, w, r, callee.name + "()")
@@ -146,15 +208,16 @@ class OrderWalker(Walker):
         return st
 
 
-def transformer(fn, eff, cache, graph_root, problems, depth=0):
+def transformer(fn, eff, cache, graph_root, problems, depth=0, closures=None):
     """(established, preserved) tokens of fn: exit tokens when started from {} and from ALL_OK"""
-    key = (fn.key, graph_root)
+    key = (fn.key, graph_root, tuple(sorted((d, tuple(sorted(w)), tuple(sorted(r)))
+                                            for d, (w, r) in (closures or {}).items())))
     if key in cache:
         return cache[key]
     res = []
     for start in (frozenset(), ALL_OK):
         sink = problems if start == ALL_OK else []
-        w = OrderWalker(fn, eff, cache, graph_root, sink, depth)
+        w = OrderWalker(fn, eff, cache, graph_root, sink, depth, closures=closures)
         w.run(State({"tok": start}))
         outs = [st.get("tok") for (kind, node, st) in w.exits if kind != "throw"]
         toks = frozenset.intersection(*outs) if outs else frozenset()
@@ -308,11 +371,18 @@ def traversal_rule(db, chk, uname, nmax):
     map_ = model.operator_impls(db, uname).get(MULTI, {}).get("apply")
     if map_ is None:
         raise AnalysisBroken("C06-F3: multi_flow_router apply() not instantiated in %s" % uname)
-    ws = run_router(map_, Scenario(False, False, []), Obj(MULTI, {"m_slope_exp": Sym("exp", "p")}))
-    self_donor = any(v == CENTRE for w in ws for v in w.tables["m_donors"].cells.values())
+    # ... for each kind of node that keeps itself as receiver: a pit, a masked node, a base level
+    conventions = {}
+    for kind, sc in (("pit", Scenario(False, False, [])), ("masked node", Scenario(True, False, [])),
+                     ("base level", Scenario(False, True, []))):
+        ws = run_router(map_, sc, Obj(MULTI, {"m_slope_exp": Sym("exp", "p")}))
+        outs = {any(k[0] == CENTRE and v == CENTRE for k, v in w.tables["m_donors"].cells.items()) for w in ws}
+        for o in outs:
+            conventions.setdefault(o, []).append(kind)
     n_sc = 0
     nbad = 0
-    for multi in (False, True):
+    for multi, self_donor in [(False, False)] + [(True, c) for c in sorted(conventions)]:
+        who = "" if not multi else " (roots as %s)" % " / ".join(conventions[self_donor])
         for n in range(1, nmax + 1):
             for g in small_graphs(n, multi):
                 n_sc += 1
@@ -386,8 +456,8 @@ def traversal_rule(db, chk, uname, nmax):
                 if bad:
                     nbad += 1
                 if not bad or nbad <= 6:
-                    chk.ob("C06-F3", "[%s] %s-direction graph %s" % (uname, "multi" if multi else "single",
-                           [list(r) if r else "root" for r in g]), not bad,
+                    chk.ob("C06-F3", "[%s] %s-direction graph %s%s" % (uname, "multi" if multi else "single",
+                           [list(r) if r else "root" for r in g], who), not bad,
                            where=fns["compute_bfs_indices_bottomup"].ploc,
                            function="fastscapelib::detail::flow_graph_impl::compute_*",
                            construct="traversal(%s)" % ("multi" if multi else "single"),
